@@ -14,6 +14,8 @@ assemble_coo:  hands assemble_csr the ROW-POINTER FORM of the COO input (numeric
 Matrix.diagonal (under WF of the exported CSR): diag[r] = the stored value at (r, r) or 0.
 Matrix.rowsupp:  supp[r] <=> some stored entry of row r has |value| > tol.
 Matrix.__reduce__: the reconstruction call is assemble_csr(data, indptr, indices, shape[1]) and is accepted.
+assemble_block_csr (contracts/blockcsr.py, bounded block grids): what is handed to assemble_csr is WF and denotes the block matrix.
+eye, deprecated assemble, Matrix.__sub__/__rmul__/__truediv__ (contracts/matwrap.py): delegate with the right arguments / sign / inverse.
 """
 import z3
 from pyvc.contract import Contract, State
@@ -422,7 +424,9 @@ class Reduce(Contract):
 
 
 def contracts():
-    return [AssembleCSR(), AssembleCOO(), Diagonal(), Constructor('diag'), Constructor('empty'), RowSupp('default'), RowSupp('given'), Reduce()]
+    from contracts import blockcsr, matwrap
+    return ([AssembleCSR(), AssembleCOO(), Diagonal(), Constructor('diag'), Constructor('empty'), RowSupp('default'), RowSupp('given'), Reduce()]
+            + matwrap.contracts() + blockcsr.contracts())
 
 
 TRUSTED = ['pyvc symbolic executor and its Python model (DESIGN 2.3)',
@@ -433,14 +437,28 @@ TRUSTED = ['pyvc symbolic executor and its Python model (DESIGN 2.3)',
            'numpy int64 treated as mathematical integers',
            'assemble_coo: numeric.compress_indices is replaced by its contract (contracts/compress.py), which is PROVED for all lengths under property C05 '
            '(./check C05); matrix.assemble_csr is replaced by its contract, proved above (AssembleCSR)',
-           'Matrix.__reduce__: pickle calls the returned callable with the returned argument tuple (the harness applies the assemble_csr contract to it)']
+           'Matrix.__reduce__: pickle calls the returned callable with the returned argument tuple (the harness applies the assemble_csr contract to it)',
+           'assemble_block_csr (contracts/blockcsr.py, BOUNDED block grids): the local lists values/colidx (lists of arrays) and rowptr (list of ints) are '
+           'represented by append-only symbolic lists (pyvc/chunks.py): a list of arrays by (number of chunks, concatenation), exact for append / truthiness / '
+           'numpy.concatenate; list.extend(array), numpy.array(list of ints), numpy.concatenate(list) = the arrays laid end to end (ValueError for the empty list), '
+           'unpacking a slice into two names (ValueError unless its length is 2), a[i:j] without clamping when the path proves 0 <= i <= j <= len; '
+           'appending defines a fresh array symbol by a quantified definition (definitional extension); loop-head havoc of an append-only list keeps the prefix; '
+           'matrix.assemble_csr is replaced by its contract with its precondition WF PROVED at the call, matrix.empty by its contract (Constructor above); '
+           'block arguments are never written (a store into one is outside the model)',
+           'eye / deprecated assemble / Matrix.__sub__, __rmul__, __truediv__ (contracts/matwrap.py): the callees (diag, assemble_coo, __add__, __mul__, __neg__) are recorded, not executed; '
+           'unary minus on a matrix is its __neg__ (Python data model); warnings.deprecation is a no-op; numpy.ones(n) = n float ones, ValueError iff n < 0']
 ASSUMPTIONS = ['inputs are 1-D integer/float numpy arrays (ndim/dtype.kind rejections are concrete in the model)',
                'Python asserts enabled',
                'assemble_coo: nrows >= 0, ncols >= 0 (shape entries)',
                "Matrix.rowsupp: class invariant of export('coo'): data/row/col equally long, 0 <= row[k] < shape[0]; float (not complex) data; tol a float (any IEEE value) or the default 0",
+               'assemble_block_csr: at least one block row, every block row has at least one block; every block is well-formed CSR (WF) with ncols >= 0; block values are float '
+               'arrays (one scenario with an int block for the dtype assertion); the grid shape is fixed per scenario: 1x1, 1x2, 1x3, 2x1, 3x1, 2x2',
+               'Matrix.__rmul__/__truediv__: the scalar is a real number (exact arithmetic: 1/other is the exact inverse; float rounding of the quotient is not modelled)',
                "Matrix.__reduce__: class invariant of export('csr'): the exported (data, indices, indptr) is well-formed CSR for shape (this is what assemble_csr established when the matrix was built; "
                'backend arithmetic preserving it is not covered)']
-NOT_COVERED = ['scipy and MKL backends (native code)', 'matrix arithmetic, transpose, export, submatrix; values after a pickle ROUND TRIP through a backend (only the reconstruction call is covered)',
+NOT_COVERED = ['scipy and MKL backends (native code)', 'matrix arithmetic inside the backends (__add__/__mul__/__neg__ are abstract in the base class; the base-class __sub__/__rmul__/__truediv__ only delegate), transpose, export, submatrix; values after a pickle ROUND TRIP through a backend (only the reconstruction call is covered)',
                'values of the assembled matrix inside the backend (matrix/_numpy:assemble and NumpyMatrix.export/_submatrix/T need a 2-D array model; not attempted)',
-               'assemble_block_csr (list-of-chunks concatenation of symbolic length; design sketched in notes/C15-ext.md, not built)',
+               'assemble_block_csr on grids other than 1x1, 1x2, 1x3, 2x1, 3x1, 2x2 (rows with different numbers of blocks, larger grids); any number of block rows / blocks per row '
+               '(an outer loop invariant) is not attempted; '
+               'complex or mixed-dtype blocks (numpy casting rules)',
                'complex data in rowsupp']
